@@ -36,8 +36,13 @@ _PYCMP = {
 _CT = (int, float, str, bool, type(None), tuple, list, dict, set, frozenset, range)
 
 
+def is_carrier(o) -> bool:
+    """python-level carriers (iteration descriptors, pending generator expressions) are not constants"""
+    return isinstance(o, tuple) and len(o) == 3 and o[0] in ("iterinfo", "genexp")
+
+
 def is_const(v: Val) -> bool:
-    return v.is_py and isinstance(v.py, _CT) and not _has_val(v.py)
+    return v.is_py and isinstance(v.py, _CT) and not is_carrier(v.py) and not _has_val(v.py)
 
 
 def _has_val(o):
